@@ -3,7 +3,6 @@
    code through the `glob` / `copyright` streams (docs/cones/C17.md, known_findings.jsonl). *)
 From V.model Require Import Base Deb822Lex Deb822Parse Glob Copyright CopyrightSpec.
 From V.proofs Require Import GlobP CopyrightP.
-Set Default Timeout 120.
 
 Definition two_lines (a b : str) : str := a ++ [10%N] ++ b.
 
